@@ -32,6 +32,11 @@ STALL = 20.0
 core.RLIMIT_AS_BYTES[0] = 1 << 30
 
 PROGRAMS = [
+    # strings nested in containers, with multi-byte characters (their encoder is not the scalar-string one)
+    'x := ["héllo" "wörld"]',
+    'x := ["温度" "ok" "Δt"; "a" "ß" "😀"]',
+    's := {"é", "ß", "plain"}',
+    'y := "naïve café"',
     "x := 1 + 2",
     "x := [1 2 3] + 1\ny := x * 2",
     "a := true && false",
